@@ -75,6 +75,16 @@ def leaf_queries(I, a, leaf, py, sl):
                 cond = z3.And(prov == pid, a[1] == nk)
                 if not ok: bad.append(cond)
                 bad.append(z3.And(cond, z3.Or(bv(f.size) != size, bv(R.size) != size)))
+    # the same name as the type of an extern value and behind a pointer in an impl-function parameter
+    from ..summary import modules
+    evs = modules(py)['a'][4]
+    gfn = [fn for fn in R.functions if fn.name == 'g']
+    for pid, (pat, size) in PROV.items():
+        for nk, nm in ((0, 'S'), (1, 'u32')):
+            path = pat % nm if '%s' in pat else pat
+            cond = z3.And(prov == pid, a[1] == nk)
+            if len(evs) != 1 or evs[0][3] != ['raw', path]: bad.append(cond)
+            if len(gfn) != 1 or gfn[0].args[1:] != [['p', ['const*', ['raw', path]]]]: bad.append(cond)
     return [Query('field-binds-to-the-definition-the-scoping-rules-select', z3.Or(*bad))]
 
 
